@@ -37,10 +37,14 @@ class Prop(PropBase):
     def cases(self, rng, tier):
         quick = tier == "quick"
         for i_case in range(120 if quick else 4000):
-            n, L, extra = rng.choice([1, 2, 3]), rng.choice([2, 3, 6]), rng.choice([0, 0, 2])
+            # trailing sample axes after the polarisation axis: none, one, or several (beams, bits, ...)
+            n, L, extra = rng.choice([1, 2, 3]), rng.choice([2, 3, 6]), rng.choice([0, 0, 2, [2, 3], [3, 2], [2, 1, 3]])
             if i_case % 60 == 59:
                 n, L, extra = rng.choice([32, 65]), rng.choice([64, 129]), 0        # many channels, longer records
-            cnt = L * n * 2 * (extra or 1)
+            ext = tuple(extra) if isinstance(extra, list) else ((extra,) if extra else ())
+            cnt = L * n * 2
+            for e_ in ext:
+                cnt *= e_
             def comp():
                 r = rng.random()
                 if r < 0.1:
@@ -52,7 +56,8 @@ class Prop(PropBase):
 
     def run_code(self, case):
         pb, np, u = self.pb, self.np, self.u
-        shape = (case["L"], case["n"], 2) + ((case["extra"],) if case["extra"] else ())
+        ext = tuple(case["extra"]) if isinstance(case["extra"], list) else ((case["extra"],) if case["extra"] else ())
+        shape = (case["L"], case["n"], 2) + ext
         v = np.array([complex(a / 8.0, b / 8.0) for a, b in case["vals"]]).reshape(shape)
         # amplitude scale: a power of two (exact), from unit-scale samples down to very weak ones — the conversions are linear,
         # the Stokes parameters quadratic, so the results are compared after dividing the scale out again (exactly)
@@ -61,7 +66,7 @@ class Prop(PropBase):
         data = v
         if case["dask"]:
             import dask.array as da
-            data = da.from_array(v, chunks=(-1, 1, 2) + ((1,) if case["extra"] else ()))
+            data = da.from_array(v, chunks=(-1, 1, 2) + (1,) * len(ext))
         z = sigs.make(pb, "DualPolarizationSignal", case["L"], 1 * u.MHz, sigs.T0S[0], nchan=case["n"], data=data,
                       pol_type=case["pol"], center_freq=400 * u.MHz, freq_align="top", meta={"a": 1})
         try:
